@@ -73,6 +73,9 @@ var civilCtor = ev.Register(&ev.P[civCase]{
 			// any sub-second part and any location: the constructors take the time's own calendar fields
 			ns := []int{0, 1, 499999999, 500000000, 999999999, 600000000}[ref.Mod(c.D+c.S+c.Mi, 6)]
 			loc := []*time.Location{time.UTC, time.Local, time.FixedZone("E8", 8*3600), time.FixedZone("W330", -12600)}[ref.Mod(c.D+c.H, 4)]
+			if c.Y == 1 && c.M == 1 && c.D == 1 && c.H == 0 && c.Mi == 0 && c.S == 0 { // Go's zero time is the first instant of the range
+				ns, loc = 0, time.UTC
+			}
 			tm := time.Date(c.Y, time.Month(c.M), c.D, c.H, c.Mi, c.S, ns, loc)
 			if tm.Year() == c.Y && int(tm.Month()) == c.M && tm.Day() == c.D && tm.Hour() == c.H && tm.Minute() == c.Mi && tm.Second() == c.S {
 				var sd *calendar.Solar
@@ -88,6 +91,16 @@ var civilCtor = ev.Register(&ev.P[civCase]{
 				for _, x := range []*calendar.Lunar{ld, lf} {
 					if x.GetYear() != l0.GetYear() || x.GetMonth() != l0.GetMonth() || x.GetDay() != l0.GetDay() || x.GetHour() != c.H || x.GetMinute() != c.Mi || x.GetSecond() != c.S {
 						return fmt.Errorf("NewLunarFromDate/NewLunarFromSolar for %v give lunar %d/%d/%d %d:%d:%d, Solar.GetLunar gives %d/%d/%d", tm, x.GetYear(), x.GetMonth(), x.GetDay(), x.GetHour(), x.GetMinute(), x.GetSecond(), l0.GetYear(), l0.GetMonth(), l0.GetDay())
+					}
+				}
+			}
+		}
+		// arguments that equal a valid value modulo 2^8, 2^16 or 2^32 are as invalid as any other out-of-range number
+		if got && (c.D+c.S)%4 == 0 {
+			for _, k := range []int{1 << 8, 1 << 16, -(1 << 16), 1 << 32} {
+				for i, tup := range [][6]int{{c.Y, c.M + k, c.D, c.H, c.Mi, c.S}, {c.Y, c.M, c.D + k, c.H, c.Mi, c.S}, {c.Y, c.M, c.D, c.H + k, c.Mi, c.S}, {c.Y, c.M, c.D, c.H, c.Mi + k, c.S}, {c.Y, c.M, c.D, c.H, c.Mi, c.S + k}} {
+					if ok, _ := accepted(func() { calendar.NewSolar(tup[0], tup[1], tup[2], tup[3], tup[4], tup[5]) }); ok {
+						return fmt.Errorf("NewSolar%v accepted: coordinate %d is a valid value plus %d", tup, i+1, k)
 					}
 				}
 			}
@@ -197,6 +210,18 @@ var lunarCtor = ev.Register(&ev.P[lunarYearCase]{
 					s := l.GetSolar()
 					if !ref.Valid(s.GetYear(), s.GetMonth(), s.GetDay(), s.GetHour(), s.GetMinute(), s.GetSecond()) {
 						return fmt.Errorf("NewLunar(%d,%d,%d) carries the invalid civil date %s", y, m, d, s.ToYmdHms())
+					}
+				}
+				if want && (m+d)%5 == 0 { // a valid triple plus a multiple of 2^8 / 2^16 / 2^32 in one coordinate is no date
+					for _, k := range []int{1 << 8, 1 << 16, -(1 << 16), 1 << 32} {
+						for _, tup := range [][3]int{{y, m + k, d}, {y, m, d + k}, {y, -m - k, d}} {
+							if ok, _ := accepted(func() { calendar.NewLunar(tup[0], tup[1], tup[2], 0, 0, 0) }); ok {
+								return fmt.Errorf("NewLunar(%d,%d,%d) accepted: a valid triple of year %d with %d added to one coordinate", tup[0], tup[1], tup[2], y, k)
+							}
+							if ok, _ := accepted(func() { calendar.NewTaoFromYmd(tup[0]+2697, tup[1], tup[2]) }); ok {
+								return fmt.Errorf("NewTaoFromYmd(%d,%d,%d) accepted", tup[0]+2697, tup[1], tup[2])
+							}
+						}
 					}
 				}
 				// the other constructors of the same triple (on a thinner grid: they share NewLunar)
@@ -574,6 +599,17 @@ func TestC07(t *testing.T) {
 		}
 	}
 	lunarCtor.Rapid(ev.Share(ev.Pick(160, 1600)), func(t *rapid.T) lunarYearCase { return lunarYearCase{gen.Year(t, 1, 9998)} })
+	// one slice of the box on EVERY day of 1960-2035 (a dense modern window, where date-specific special cases would
+	// live): the time tuples just outside the range
+	for j := ref.JDN(1960, 1, 1); j <= ref.JDN(2035, 12, 31); j++ {
+		if !ev.Mine(j) {
+			continue
+		}
+		y, m, d := ref.FromJDN(j)
+		for _, tm := range [][3]int{{23, 59, 60}, {24, 0, 0}, {23, 60, 0}, {0, 0, -1}} {
+			civilCtor.Eval(civCase{y, m, d, tm[0], tm[1], tm[2]})
+		}
+	}
 	// short lunar steps from every day of the months of unusual length (the 28-day twelfth month of lunar 236, civil
 	// 0237-01-15..02-11, is the only one below 29 days; reform-era neighbours included)
 	if ev.Shard == 0 {
